@@ -3,6 +3,7 @@ import MaltModel.Proofs.JumpsContinue
 import MaltModel.Proofs.JumpsReturn
 import MaltModel.Proofs.JumpsSyntax
 import MaltModel.Proofs.JumpsFresh
+import MaltModel.Proofs.JumpsRewrite
 /-
 C01 (jump-lowering part): the break / continue / return lowerings preserve the semantics of the shared core
 language `Malt.Sem` (Sem/Core.lean).  The lowerings on `Sem.Block` (Conv/JumpsSem.lean) are the semantic
@@ -132,6 +133,14 @@ theorem return_lowering_correct_S0 (X : Ext) (dr rv : Name) (hne : dr ≠ rv) (b
     ∃ m σ₁' o', execB X m (lowerReturn dr rv body) σ = some (o', σ₁') ∧ fnResult o' = fnResult o ∧
       Agree (HidR dr rv) σ₁ σ₁' :=
   return_lowering_correct_partial X dr rv hne body fresh (inS0_inS1 body frag) n σ o σ₁ h
+
+/-- The conditional-return rewriting (`ConditionalReturnRewriter`, first half of the return pass) preserves the
+behaviour exactly — outcome, log and the whole final store — for ALL programs of the core language (full
+statement, no hypotheses). -/
+theorem conditional_return_rewrite_correct (X : Ext) (body : Block)
+    (n : Nat) (σ : St) (r : Out × St) (h : execB X n body σ = some r) :
+    ∃ m, execB X m (rewriteReturns body) σ = some r :=
+  rewriteReturns_correct X body n σ r h
 
 /-! ### syntactic post-conditions (all programs, no hypotheses) -/
 
@@ -317,6 +326,19 @@ def exRet : Block :=
 
 example : stdDr ≠ stdRv ∧ GenNamesFreshR stdDr stdRv exRet ∧ inS1 exRet :=
   ⟨by decide, userNames_freshR exRet (by decide), by decide⟩
+
+/-- The rewriting moves `tr(5)` and the final return into the else branch:
+```
+if d(): return tr(1)
+else: tr(2)
+tr(5)
+return tr(0)
+``` -/
+def exRw : Block :=
+  [.ifS dcall [.ret (some (tr 1))] [.expr (tr 2)], .expr (tr 5), .ret (some (tr 0))]
+
+example : rewriteReturns exRw =
+    [.ifS dcall [.ret (some (tr 1))] [.expr (tr 2), .expr (tr 5), .ret (some (tr 0))]] := by rfl
 
 /-- S0 instance: the first two statements of `exRet` without the `with`. -/
 def exRet0 : Block :=
